@@ -38,7 +38,14 @@ RULE = ("cases = validator expression (random trees to depth 4 over instance_of,
         "the time of each call; regexes include anchors under alternation (^ab|cd, ab$|cd, ^\\d+|N/A, ^$|x ...) as text, bytes and "
         "precompiled, with values derived from what the regex matches (at offset 0, at an offset > 0, before junk, on another line, "
         "other case); deterministic blocks: the regex pool x flags x func x form, each over the derived values, and scripted "
-        "histories x type pool x wrappers; thorough additionally enumerates every "
+        "histories x type pool x wrappers; value domains with EQUAL BUT DISTINGUISHABLE members (1, 1.0, True, Decimal(1), Fraction(1), "
+        "int subclass, 1+0j; 0 / 0.0 / -0.0 / False; 'a' vs a str subclass; tuple vs tuple subclass) placed in lists, tuples, dict "
+        "values and the keys of scripted mappings in every order of 2 and 3, for deep_iterable (single / list members), deep_mapping "
+        "(key and value side) and nestings, with member validators that tell them apart (exact types, numeric ABCs, not_, in_, "
+        "bounds, scripted probes); objects whose ATTRIBUTE PROTOCOL LIES (dunders stored on the instance, catch-all __getattr__ "
+        "answering or raising, a __class__ property naming another class, SimpleNamespace / module with dunder attributes, "
+        "metaclasses scripting __instancecheck__ or only __subclasscheck__) as values for every leaf validator and as options / "
+        "bounds parameters; thorough additionally enumerates every "
         "expression of depth <= 2 over a reduced leaf pool x a reduced value pool; non-trivial = the constructor "
         "succeeded (a call was made); distinct = distinct JSON case")
 ASSUMPTIONS = [
@@ -54,7 +61,8 @@ ASSUMPTIONS = [
     "can change are created afresh per case",
     "exceptions are compared by exact class within a 13-class universe (TypeError, NotCallableError, ValueError, KeyError, "
     "IndexError, AttributeError, ZeroDivisionError, RuntimeError, re.error and user subclasses of TypeError / ValueError / "
-    "Exception / BaseException); anything else is reported as `other` and never matches the model",
+    "Exception / BaseException); anything else is reported as `other` and never matches the model; a generated case in which a "
+    "plain-Python primitive itself raises outside this universe (e.g. decimal.InvalidOperation from Decimal < nan) is not used",
     "constructor calls outside the documented argument domain (invalid func, flags with a compiled pattern, non-callable "
     "validators, exc_types that are no Exception subclasses) are modelled exactly but the spec demands nothing of them",
 ]
@@ -93,8 +101,63 @@ VALUES_PLAIN = [
 ]
 
 
+# equal (== and hash-equal) but distinguishable values: "equal" is not "interchangeable"
+TWINS = [
+    [I(1), ["float", (1.0).hex()], ["bool", True], ["decimal", "1"], ["fraction", 1, 1], ["intsub", 1], ["complex", 1]],
+    [I(0), ["float", (0.0).hex()], ["bool", False], ["decimal", "0"], ["float", (-0.0).hex()]],
+    [I(2), ["float", (2.0).hex()], ["decimal", "2"], ["fraction", 4, 2]],
+    [S("a"), ["strsub", "a"]], [S("ab"), ["strsub", "ab"]], [S(""), ["strsub", ""]],
+    [["tuple", [I(1)]], ["tuplesub", [I(1)]], ["tuple", [["bool", True]]]],
+    [["frozenset", [I(1)]], ["frozenset", [["bool", True]]]],
+]
+_TWIN_OF = {json.dumps(m): g for g in TWINS for m in g}
+
+
+def twins_of(d):
+    return _TWIN_OF.get(json.dumps(d))
+
+
+def twin_members(rng, d=None, k=None):
+    """a permutation of 2..4 members of a twin group (the group of d, or any)"""
+    g = (twins_of(d) if d is not None else None) or rng.choice(TWINS)
+    k = k or rng.choice([2, 2, 3, 3, 4])
+    ms = rng.sample(g, min(k, len(g)))
+    if d is not None and d in g and d not in ms:
+        ms[rng.randrange(len(ms))] = d
+    return ms
+
+
+_LIAR_DUNDERS = ["__call__", "__len__", "__contains__", "__iter__", "__getitem__", "__lt__", "__le__", "__gt__", "__ge__", "__eq__",
+                 "__hash__", "__instancecheck__", "__bool__"]
+
+
+def liar_values(rng, want=None):
+    """objects whose attribute protocol lies (see c18_world._liar), SimpleNamespace / module with dunder attributes"""
+    n = rng.randrange(10 ** 6)
+    c = rng.randrange(8)
+    inst = [want] if want else []
+    if c == 0:
+        return ["liar", {"name": f"i{n}", "inst": sorted(set(inst + rng.sample(_LIAR_DUNDERS, rng.choice([1, 2, 3]))))}]
+    if c == 1:
+        return ["liar", {"name": f"g{n}", "getattr": "all"}]
+    if c == 2:
+        return ["liar", {"name": f"r{n}", "getattr": ["raise", rng.choice(K_SOME)]}]
+    if c == 3:
+        return ["liar", {"name": f"c{n}", "cls": rng.choice(["int", "str", "list", "bool", "NoneType", "Callable", "float"])}]
+    if c == 4:
+        return ["ns", [[want or rng.choice(_LIAR_DUNDERS), ["fn", "len"]]]]
+    if c == 5:
+        return ["module", "plugin", [[want or "__call__", ["fn", "len"]]]]
+    if c == 6:
+        return ["liar", {"name": f"a{n}", "inst": sorted(_LIAR_DUNDERS)}]
+    return ["liar", {"name": f"m{n}", "inst": sorted(set(inst + ["__call__"])), "cls": rng.choice(["int", "Callable", "str"]),
+                     "getattr": rng.choice([None, "all"])}]
+
+
 def hostile_values(rng):
     """a freshly drawn scripted object"""
+    if rng.random() < 0.3:
+        return liar_values(rng)
     k = rng.choice(K_SOME)
     k2 = rng.choice(K_SOME)
     n = rng.randrange(10 ** 6)
@@ -145,6 +208,9 @@ TYPES = [
     ["tuple", [["cls", "int"], ["cls", "str"]]], ["tuple", [["cls", "list"], ["cls", "tuple"], ["cls", "dict"]]], ["tuple", []],
     ["tuple", [["cls", "int"], ["tuple", [["cls", "float"], ["cls", "NoneType"]]]]],
     ["union", ["int", "str"]], ["generic"], I(5), S("int"), NONE,
+    ["cls", "Decimal"], ["cls", "Fraction"], ["cls", "StrSub"], ["cls", "IntSub"], ["cls", "Real"], ["cls", "Integral"],
+    ["cls", "complex"], ["cls", "Sequence"], ["cls", "Container"], ["cls", "SimpleNamespace"], ["cls", "TupleSub"],
+    ["tuple", [["cls", "float"], ["cls", "Decimal"]]], ["Hsubtype", "T", True], ["Hsubtype", "F", False],
     ["Htype", {"name": "T", "instancecheck": ["ret", ["bool", True]]}],
     ["Htype", {"name": "F", "instancecheck": ["ret", ["bool", False]]}],
 ]
@@ -177,7 +243,15 @@ OPTS = [
 ]
 
 
+LIAR_OPTS = [["liar", {"name": "optc", "inst": ["__contains__", "__iter__", "__getitem__"]}], ["ns", [["__contains__", ["fn", "len"]]]],
+             ["liar", {"name": "optg", "getattr": "all"}]]
+LIAR_BOUNDS = [["liar", {"name": "bnd", "inst": ["__gt__", "__ge__", "__lt__", "__le__"]}], ["liar", {"name": "bndg", "getattr": "all"}],
+               ["decimal", "1"], ["fraction", 1, 1], ["strsub", "b"]]
+
+
 def hostile_opts(rng):
+    if rng.random() < 0.25:
+        return rng.choice(LIAR_OPTS)
     k = rng.choice(K_SOME)
     n = rng.randrange(10 ** 6)
     c = rng.randrange(5)
@@ -197,6 +271,8 @@ BOUNDS = [I(0), I(3), I(-1), I(1), ["float", (2.5).hex()], ["nan"], S("b"), NONE
 
 
 def hostile_bound(rng):
+    if rng.random() < 0.3:
+        return rng.choice(LIAR_BOUNDS)
     k = rng.choice(K_SOME)
     n = rng.randrange(10 ** 6)
     b = rng.choice([["ret", ["bool", True]], ["ret", ["bool", False]], ["raise", k], ["ret", "NotImplemented"]])
@@ -520,6 +596,11 @@ def _uses(tree):
     return uses, res
 
 
+class Unrepresentable(Exception):
+    """a primitive raised an exception outside the modelled exception universe (e.g. decimal.InvalidOperation):
+    its place in the class hierarchy is unknown to the model, so the case is not used"""
+
+
 def complete(spec):
     """spec (tree, tree2, purge, params, cfg) -> full case with value table and oracle rows"""
     P = spec["params"]
@@ -549,6 +630,8 @@ def complete(spec):
     case["more"] = more
     case["vals"] = orc.vrows
     case["prim"] = orc.rows_json()
+    if '"other"' in json.dumps([case["vals"], case["prim"]]):
+        raise Unrepresentable
     case["info"] = {"in_literal_differs": orc.in_literal_differs}
     return case
 
@@ -595,7 +678,21 @@ class Ctx:
 _SAMPLE_OF_TYPE = {"int": I(3), "str": S("ab"), "float": ["float", (0.5).hex()], "bool": ["bool", True], "list": ["list", [I(1), I(2)]],
                    "dict": ["dict", [[I(1), I(2)]]], "tuple": ["tuple", [I(1), I(2)]], "NoneType": NONE, "bytes": ["bytes", "ab"],
                    "Color": ["enum", "RED"], "Sized": ["list", []], "Callable": ["fn", "len"], "Mapping": ["dict", []],
-                   "Number": I(1), "type": ["cls", "int"], "UserClass": ["cls", "UserClass"]}
+                   "Number": I(1), "type": ["cls", "int"], "UserClass": ["cls", "UserClass"],
+                   "Decimal": ["decimal", "1"], "Fraction": ["fraction", 1, 1], "StrSub": ["strsub", "a"], "IntSub": ["intsub", 1],
+                   "Real": ["float", (1.0).hex()], "Integral": ["bool", True], "complex": ["complex", 1], "Sequence": ["tuplesub", [I(1)]],
+                   "TupleSub": ["tuplesub", [I(1)]]}
+
+
+_SAMPLES_OF_TYPE = {"int": [I(3), I(1), I(0), I(2)], "float": [["float", (0.5).hex()], ["float", (1.0).hex()], ["float", (2.0).hex()]],
+                    "bool": [["bool", True], ["bool", False]], "str": [S("ab"), S("a"), S("")], "tuple": [["tuple", [I(1), I(2)]], ["tuple", [I(1)]]],
+                    "Number": [I(1), ["decimal", "2"]], "Real": [["float", (1.0).hex()], ["fraction", 1, 1]], "Integral": [["bool", True], I(2)]}
+
+
+def _with_twins(rng, ds):
+    """one of the descriptors that has equal-but-different twins, if any"""
+    tw = [d for d in ds if twins_of(d)]
+    return rng.choice(tw) if tw else (rng.choice(ds) if ds else None)
 
 
 def gen_leaf(ctx, allow_junk=True):
@@ -609,7 +706,9 @@ def gen_leaf(ctx, allow_junk=True):
             return {"instOf": {"t": ctx.add("types", d)}}
         d = hostile_type(rng) if rng.random() < 0.12 else rng.choice(TYPES)
         if d[0] == "cls" and d[1] in _SAMPLE_OF_TYPE:
-            ctx.suggest.append(_SAMPLE_OF_TYPE[d[1]])
+            ctx.suggest.append(rng.choice(_SAMPLES_OF_TYPE.get(d[1], [_SAMPLE_OF_TYPE[d[1]]])))
+        if rng.random() < 0.3:
+            ctx.suggest.append(liar_values(rng, "__instancecheck__"))
         return {"instOf": {"t": ctx.add("types", d)}}
     if c < 0.30:
         d = hostile_opts(rng) if rng.random() < 0.2 else rng.choice(OPTS)
@@ -624,6 +723,8 @@ def gen_leaf(ctx, allow_junk=True):
         d = hostile_bound(rng) if rng.random() < 0.15 else rng.choice(BOUNDS)
         if d[0] == "int":
             ctx.suggest += [I(d[1] - 1), I(d[1]), I(d[1] + 1)]
+        if rng.random() < 0.25:
+            ctx.suggest.append(liar_values(rng, rng.choice(["__lt__", "__ge__"])))
         return {"num": {"op": rng.choice(["lt", "le", "ge", "gt"]), "b": ctx.add("bounds", d)}}
     if c < 0.54:
         if rng.random() < 0.8:
@@ -631,6 +732,8 @@ def gen_leaf(ctx, allow_junk=True):
             b = {"int": {"n": n}}
             ctx.suggest.append(["list", [I(1)] * max(0, n)])
             ctx.suggest.append(S("x" * max(0, n + rng.choice([-1, 1]))))
+            if rng.random() < 0.3:
+                ctx.suggest.append(liar_values(rng, "__len__"))
         else:
             b = {"opaque": {"id": ctx.add("lbounds", rng.choice(LBOUNDS_OPAQUE))}}
         return {rng.choice(["maxLen", "minLen"]): {"b": b}}
@@ -642,7 +745,7 @@ def gen_leaf(ctx, allow_junk=True):
         ctx.suggest += derived_values(d, rng, 6) + [S("aa"), S("xab")]
         return {"matchesRe": {"r": ctx.add("regex", d), "flags": fl, "func": rng.choice(FUNCS)}}
     if c < 0.72:
-        ctx.suggest.append(["fn", "len"])
+        ctx.suggest += [["fn", "len"], liar_values(rng, "__call__"), liar_values(rng, "__call__")]
         return "isCallable"
     if c < 0.97 or not allow_junk:
         return {"probe": {"p": ctx.probe(), "retv": rng.random() < 0.25}}
@@ -689,6 +792,8 @@ def gen_tree(ctx, depth, allow_junk=True):
         ctx.suggest.append(["list", [rng.choice(inner) for _ in range(rng.choice([1, 2, 3]))] if inner else []])
         if inner and rng.random() < 0.5:
             ctx.suggest.append(["tuple", [inner[0], rng.choice(VALUES_PLAIN)]])
+        # members that are equal but distinguishable, in some order
+        ctx.suggest.append([rng.choice(["list", "tuple"]), twin_members(rng, _with_twins(rng, inner))])
         return {"deepIter": {"m": m, "it": container()}}
     if c < 0.87:
         mark = len(ctx.suggest)
@@ -696,6 +801,7 @@ def gen_tree(ctx, depth, allow_junk=True):
         inner = ctx.suggest[mark:]
         del ctx.suggest[mark:]
         ctx.suggest.append(["list", [rng.choice(inner) for _ in range(rng.choice([1, 2]))] if inner else []])
+        ctx.suggest.append(["list", twin_members(rng, _with_twins(rng, inner))])
         return {"deepIterSeq": {"isTuple": rng.random() < 0.5, "ms": ms, "it": container()}}
     mark = len(ctx.suggest)
     k = sub()
@@ -711,6 +817,16 @@ def gen_tree(ctx, depth, allow_junk=True):
         if all(kd != e[0] for e in items):
             items.append([kd, rng.choice(vi) if vi else rng.choice(VALUES_PLAIN)])
     ctx.suggest.append(["dict", items])
+    # equal but distinguishable values under distinct keys, in some order; the same for keys (a scripted mapping
+    # can yield equal keys, a dict cannot)
+    tv = twin_members(rng, _with_twins(rng, vi))
+    keys = [kd for kd in hashable[:1]] + [S(x) for x in "pqrs"]
+    ctx.suggest += [["dict", [[keys[i], m] for i, m in enumerate(tv)]]] * 2
+    if rng.random() < 0.5:
+        tk = twin_members(rng, _with_twins(rng, ki))
+        ctx.suggest.append(H(f"tw{rng.randrange(10 ** 6)}", iter=["yield", tk, None],
+                             getitem=["map", [[kd, rng.choice(tv)] for kd in tk[:1]], "keyError"] if rng.random() < 0.5
+                             else ["raise", rng.choice(["keyError", "indexError"])]))
     kk, vv = k, v
     if allow_junk and rng.random() < 0.03:
         kk = rng.choice(["junk", "noneV"])
@@ -888,9 +1004,13 @@ def sibling(rng, v):
     if tag in ("str", "bytes"):
         return [tag, rng.choice([v[1] + "x", "x" + v[1], v[1][:-1], v[1].swapcase(), ""])]
     if tag in ("list", "tuple"):
-        return [tag, rng.choice([v[1] + [I(9)], v[1][:-1], list(reversed(v[1])), []])]
+        return [tag, rng.choice([v[1] + [I(9)], v[1][:-1], list(reversed(v[1])), list(reversed(v[1])), rng.sample(v[1], len(v[1])), []])]
     if tag == "dict":
-        return [tag, rng.choice([v[1][:-1], v[1] + [[S("zz"), NONE]], []])]
+        # same keys, the values in another order (and the items in another order)
+        vals = [kv[1] for kv in v[1]]
+        perm = rng.sample(vals, len(vals))
+        return [tag, rng.choice([v[1][:-1], v[1] + [[S("zz"), NONE]], list(reversed(v[1])),
+                                 [[kv[0], x] for kv, x in zip(v[1], perm)], [[kv[0], x] for kv, x in zip(v[1], reversed(vals))]])]
     if tag in ("set", "frozenset"):
         return [tag, v[1][:-1]]
     if tag == "winst":
@@ -1092,18 +1212,119 @@ def history_specs(rng, full):
                 yield {"tree": w, "tree2": copy.deepcopy(w), "purge": False, "params": P, "cfg": dict(_CFG0)}
 
 
+_LIARS = [
+    ["liar", {"name": "icall", "inst": ["__call__"]}], ["liar", {"name": "ilen", "inst": ["__len__", "__iter__", "__contains__"]}],
+    ["liar", {"name": "iord", "inst": ["__lt__", "__le__", "__gt__", "__ge__", "__eq__", "__hash__"]}],
+    ["liar", {"name": "iall", "inst": sorted(_LIAR_DUNDERS)}], ["liar", {"name": "gall", "getattr": "all"}],
+    ["liar", {"name": "graise", "getattr": ["raise", "valueError"]}], ["liar", {"name": "gbase", "getattr": ["raise", "userBase"]}],
+    ["liar", {"name": "cint", "cls": "int"}], ["liar", {"name": "cstr", "cls": "str"}], ["liar", {"name": "ccall", "cls": "Callable"}],
+    ["liar", {"name": "mix", "inst": ["__call__", "__len__"], "cls": "list", "getattr": "all"}],
+    ["ns", [["__call__", ["fn", "len"]]]], ["ns", [["__len__", ["fn", "len"]], ["__lt__", ["fn", "len"]]]],
+    ["module", "plugin", [["__call__", ["fn", "len"]]]], ["strsub", "aa"], ["intsub", 1], ["tuplesub", [I(1)]], ["decimal", "1"],
+    ["fn", "len"], ["cls", "int"], I(1), S("aa"),
+]
+
+
+def _hist(values, fresh_every=3):
+    return [{"ops": [], "fresh": i % fresh_every == fresh_every - 1, "value": v} for i, v in enumerate(values)]
+
+
+def liar_specs(rng, full):
+    """every kind of leaf under wrappers over objects whose attribute protocol lies (instance-level dunders, catch-all
+    __getattr__, __class__ property, namespace / module with dunder attributes) and over subclass instances"""
+    leaves = [
+        ("none", None, "isCallable"),
+        ("types", ["cls", "int"], {"instOf": {"t": 0}}), ("types", ["cls", "Callable"], {"instOf": {"t": 0}}),
+        ("types", ["cls", "Sized"], {"instOf": {"t": 0}}), ("types", ["cls", "str"], {"instOf": {"t": 0}}),
+        ("types", ["Hsubtype", "T", True], {"instOf": {"t": 0}}), ("types", ["tuple", [["cls", "list"], ["cls", "Container"]]], {"instOf": {"t": 0}}),
+        ("opts", ["list", [I(1), S("aa")]], {"in_": {"o": 0}}), ("opts", LIAR_OPTS[0], {"in_": {"o": 0}}), ("opts", LIAR_OPTS[1], {"in_": {"o": 0}}),
+        ("opts", LIAR_OPTS[2], {"in_": {"o": 0}}),
+        ("bounds", I(2), {"num": {"op": "lt", "b": 0}}), ("bounds", I(0), {"num": {"op": "ge", "b": 0}}),
+        ("bounds", LIAR_BOUNDS[0], {"num": {"op": "lt", "b": 0}}), ("bounds", LIAR_BOUNDS[1], {"num": {"op": "gt", "b": 0}}),
+        ("none", None, {"maxLen": {"b": {"int": {"n": 1}}}}), ("none", None, {"minLen": {"b": {"int": {"n": 1}}}}),
+        ("regex", S("a+"), {"matchesRe": {"r": 0, "flags": 0, "func": "dflt"}}),
+        ("regex", S("a"), {"matchesRe": {"r": 0, "flags": 0, "func": {"named": {"s": "search"}}}}),
+    ]
+    for table, d, leaf in leaves:
+        ws = list(_wrappers(leaf))
+        for w in (ws if full else [ws[0], rng.choice(ws[1:])]):
+            P = Ctx(rng).P
+            if table != "none":
+                P[table] = [d]
+            vals = list(_LIARS)
+            if "deepIter" in w:
+                vals = [["list", vals[i:i + 3]] for i in range(0, len(vals), 3)] + [["tuple", [vals[0], vals[18]]]]
+            P.update(value=vals[0], history=_hist(vals[1:]), salt=11)
+            yield {"tree": w, "tree2": copy.deepcopy(w), "purge": False, "params": P, "cfg": dict(_CFG0)}
+
+
+def _orders(g, full, rng):
+    """orderings of 2 and 3 members of a twin group"""
+    out = [list(p) for p in itertools.permutations(g, 2)]
+    out += [list(p) for p in itertools.permutations(g[:4], 3)]
+    if not full and len(out) > 10:
+        out = rng.sample(out, 10)
+    return out
+
+
+def twin_specs(rng, full):
+    """every container validator over containers whose members / keys / values are equal but distinguishable
+    (1, 1.0, True, Decimal(1), Fraction(1), int subclass; "a", str subclass; ...), in every order, with
+    member validators that tell them apart"""
+    members = [
+        ("types", ["cls", "int"], {"instOf": {"t": 0}}), ("types", ["cls", "float"], {"instOf": {"t": 0}}), ("types", ["cls", "bool"], {"instOf": {"t": 0}}),
+        ("types", ["cls", "Decimal"], {"instOf": {"t": 0}}), ("types", ["cls", "str"], {"instOf": {"t": 0}}), ("types", ["cls", "StrSub"], {"instOf": {"t": 0}}),
+        ("types", ["cls", "Integral"], {"instOf": {"t": 0}}), ("types", ["cls", "tuple"], {"instOf": {"t": 0}}),
+        ("types", ["cls", "bool"], {"not_": {"v": {"instOf": {"t": 0}}, "msg": 0, "exc": "dflt"}}),
+        ("types", ["cls", "TupleSub"], {"not_": {"v": {"instOf": {"t": 0}}, "msg": 0, "exc": "dflt"}}),
+        ("opts", ["tuple", [I(1), S("a")]], {"in_": {"o": 0}}), ("bounds", I(1), {"num": {"op": "ge", "b": 0}}),
+        ("probes", {"0": {"choices": ["pass", "userValErr", "pass", "keyError"]}}, {"probe": {"p": 0, "retv": False}}),
+    ]
+    anykey = {"probe": {"p": 7, "retv": False}}
+    for table, d, m in members:
+        for gi, g in enumerate(TWINS):
+            orders = _orders(g, full, rng)
+            forms = [
+                ({"deepIter": {"m": m, "it": "noneV"}}, [["list", o] for o in orders]),
+                ({"deepIterSeq": {"isTuple": False, "ms": [m, m], "it": "noneV"}}, [["tuple", o] for o in orders]),
+                ({"deepMap": {"k": anykey, "v": m, "m": "noneV"}}, [["dict", [[S("pqr"[i]), x] for i, x in enumerate(o)]] for o in orders]),
+                ({"deepMap": {"k": m, "v": anykey, "m": "noneV"}},
+                 [H(f"tk{gi}_{j}", iter=["yield", o, None], getitem=["map", [[x, I(j)] for x in o[:1]], "keyError"], len=["ret", I(len(o))])
+                  for j, o in enumerate(orders)]),
+                ({"deepIter": {"m": {"deepMap": {"k": anykey, "v": m, "m": "noneV"}}, "it": "noneV"}},
+                 [["list", [["dict", [[S("p"), o[0]]]], ["dict", [[S("q"), x] for x in o[1:2]] + [[S("r"), o[-1]]]]]] for o in orders]),
+                ({"optional": {"v": {"and_": {"vs": [{"deepMap": {"k": anykey, "v": m, "m": "noneV"}}]}}}},
+                 [["dict", [[I(i), x] for i, x in enumerate(reversed(o))]] for o in orders]),
+            ]
+            for w, vals in (forms if full else rng.sample(forms, 3)):
+                P = Ctx(rng).P
+                P["probes"] = {"7": {"choices": ["pass"]}}
+                if table == "probes":
+                    P["probes"].update(d)
+                else:
+                    P[table] = [d]
+                P.update(value=vals[0], history=_hist(vals[1:9]), salt=13)
+                yield {"tree": w, "tree2": copy.deepcopy(w), "purge": False, "params": P, "cfg": dict(_CFG0)}
+
+
+def _try(spec):
+    try:
+        yield complete(spec)
+    except Exception:  # noqa: BLE001  -- a candidate that cannot be completed is simply not offered
+        return
+
+
 def gen_cases(tier, rng):
     # deterministic blocks: every expression of depth <= 1 (quick) / <= 2 (thorough) over the reduced pools;
     # the regex pool x flags x funcs x forms over derived values; scripted histories over the type pool
-    for s in exhaustive_specs(rng, 1 if tier == "quick" else 2):
-        yield complete(s)
-    for s in regex_specs(rng, tier != "quick"):
-        yield complete(s)
-    for s in history_specs(rng, tier != "quick"):
-        yield complete(s)
-    n = 1 << 30
-    for _ in range(n):
-        yield complete(random_spec(rng))
+    full = tier != "quick"
+    blocks = itertools.chain(exhaustive_specs(rng, 2 if full else 1), regex_specs(rng, full), history_specs(rng, full),
+                             liar_specs(rng, full), twin_specs(rng, full), (random_spec(rng) for _ in range(1 << 30)))
+    for s in blocks:
+        try:
+            yield complete(s)
+        except Unrepresentable:
+            continue
 
 
 # ------------------------------------------------------------------ reporting helpers
@@ -1148,7 +1369,7 @@ def shrink(case):
         if c == "noneV":
             continue
         try:
-            yield complete(dict(s, tree=c, tree2=copy.deepcopy(c), purge=False))
+            yield from _try(dict(s, tree=c, tree2=copy.deepcopy(c), purge=False))
         except Exception:  # noqa: BLE001
             continue
     # drop one element of a list node
@@ -1158,29 +1379,29 @@ def shrink(case):
             if key in a and len(a[key]) > 0:
                 for i in range(len(a[key])):
                     t2 = {tag: dict(a, **{key: a[key][:i] + a[key][i + 1:]})}
-                    yield complete(dict(s, tree=t2, tree2=copy.deepcopy(t2), purge=False))
+                    yield from _try(dict(s, tree=t2, tree2=copy.deepcopy(t2), purge=False))
     if s["tree2"] != s["tree"] or s.get("purge"):
-        yield complete(dict(s, tree2=copy.deepcopy(s["tree"]), purge=False))
+        yield from _try(dict(s, tree2=copy.deepcopy(s["tree"]), purge=False))
     # shorten the history from the end; make every call use the original validator object
     hist = s["params"].get("history", [])
     if hist:
-        yield complete(dict(s, params=dict(s["params"], history=hist[:-1])))
+        yield from _try(dict(s, params=dict(s["params"], history=hist[:-1])))
         if any(st.get("fresh") for st in hist):
-            yield complete(dict(s, params=dict(s["params"], history=[dict(st, fresh=False) for st in hist])))
+            yield from _try(dict(s, params=dict(s["params"], history=[dict(st, fresh=False) for st in hist])))
     for v in (NONE, I(1), S("a"), ["list", []]):
         if s["params"]["value"] != v and not hist:
             P = dict(s["params"], value=v)
-            yield complete(dict(s, params=P))
+            yield from _try(dict(s, params=P))
     # members of a container value
     v = s["params"]["value"]
     if v[0] in ("list", "tuple") and len(v[1]) > 1:
         for i in range(len(v[1])):
-            yield complete(dict(s, params=dict(s["params"], value=[v[0], v[1][:i] + v[1][i + 1:]])))
+            yield from _try(dict(s, params=dict(s["params"], value=[v[0], v[1][:i] + v[1][i + 1:]])))
     cfg = s.get("cfg", {})
     base = {"api": "attr.s", "inst_none": False, "explicit_none": False}
     for k, val in base.items():
         if cfg.get(k) != val:
-            yield complete(dict(s, cfg=dict(cfg, **{k: val})))
+            yield from _try(dict(s, cfg=dict(cfg, **{k: val})))
 
 
 def neighbours(case, rng):
@@ -1188,7 +1409,7 @@ def neighbours(case, rng):
     pool = VALUES_PLAIN + [hostile_values(rng) for _ in range(10)]
     for v in rng.sample(pool, 25):
         try:
-            yield complete(dict(s, params=dict(s["params"], value=v)))
+            yield from _try(dict(s, params=dict(s["params"], value=v)))
         except Exception:  # noqa: BLE001
             continue
     yield from shrink(case)
